@@ -278,6 +278,38 @@ func genC01op(t *rapid.T, op string) C01Case {
 		}
 		return c
 	case "mul":
+		if rapid.IntRange(0, 9).Draw(t, "round") == 0 {
+			// products that are round numbers, or miss one by a hair, although both factors are long: x = 2^a m and
+			// y = 5^a n; or y arbitrary and x = ceil / floor (10^k / y), so that x*y = 10^k + r with 0 <= |r| < y. At a
+			// small precision everything hangs on whether the tail far below is exactly zero, and on its sign
+			var xv, yv model.Val
+			if rapid.Bool().Draw(t, "rd.pow") {
+				a := int64(rapid.IntRange(1, 700).Draw(t, "rd.a"))
+				xi := new(big.Int).Exp(big.NewInt(2), big.NewInt(a), nil)
+				yi := new(big.Int).Exp(big.NewInt(5), big.NewInt(a), nil)
+				xi.Mul(xi, big.NewInt(int64(rapid.IntRange(1, 999).Draw(t, "rd.m"))))
+				yi.Mul(yi, big.NewInt(int64(rapid.IntRange(1, 999).Draw(t, "rd.n"))))
+				xv, yv = model.FromInt(xi, 0), model.FromInt(yi, 0)
+			} else {
+				yi, _ := new(big.Int).SetString(h.GenDigits(t, "rd.y", 200), 10)
+				k := int64(len(yi.String()) + rapid.IntRange(1, 400).Draw(t, "rd.k"))
+				q, r := new(big.Int).QuoRem(new(big.Int).Exp(big.NewInt(10), big.NewInt(k), nil), yi, new(big.Int))
+				if r.Sign() != 0 && rapid.Bool().Draw(t, "rd.ceil") {
+					q.Add(q, big.NewInt(1))
+				}
+				xv, yv = model.FromInt(q, 0), model.FromInt(yi, 0)
+			}
+			xv.Exp += int64(rapid.IntRange(-30, 30).Draw(t, "rd.xe"))
+			yv.Exp += int64(rapid.IntRange(-30, 30).Draw(t, "rd.ye"))
+			xv.Neg, yv.Neg = rapid.Bool().Draw(t, "rd.xneg"), rapid.Bool().Draw(t, "rd.yneg")
+			c.X = h.SpecOf(xv, h.GenPrecFor(t, "rd.xp", len(xv.Digits)), h.GenMode(t, "xm"))
+			c.Y = h.SpecOf(yv, h.GenPrecFor(t, "rd.yp", len(yv.Digits)), h.GenMode(t, "ym"))
+			c.P = uint(rapid.IntRange(1, 60).Draw(t, "rd.p"))
+			if rapid.IntRange(0, 3).Draw(t, "rd.pfull") == 0 {
+				c.P = uint(rapid.IntRange(1, len(xv.Digits)+len(yv.Digits)+2).Draw(t, "rd.p2"))
+			}
+			return c
+		}
 		switch {
 		case shape == 0:
 			// small scope
@@ -642,7 +674,7 @@ func checkC01(c C01Case, o *h.Obs) *h.Fail {
 	return nil
 }
 
-const ruleC01 = "rapid-generated (op, operands, receiver precision, mode) for add/sub/mul/quo/set/setprec/neg/abs: operands from word-patterned digit generators (0, 10^19-1, 5*10^18, 10^k, 10^k-1 words, uniform filler), result-directed constructions (chosen exact sum split into addends; x=q*y(+r) with q carrying a tie / all-nines / just-above / just-below pattern at the precision), short operands with long terminating quotients (divisors 2^a 5^b, a up to 2600, the receiver holding the whole expansion or a few digits less), a power of ten minus about half a unit of the result's last place (the difference drops into the decade below; tie / just below / just above decided one to several words further down), near-total cancellation, exponents at both ends of the int32 range, zero addends, an addend 4096 .. 140000 digits below the other (a few per run: 2^20 .. 2^27 digits below), dividends of 19500-24000 digits against short divisors (random, or an exact multiple of the divisor followed by zeros and one stray digit anywhere in the tail, the mantissa zero-padded below it), receivers aliased to an operand, about one case in 4000 with operands or precisions of 32768..131072 digits; oracle = math/big exact result rounded once by the reference Round (range rule included), compared on sign, digits, exponent read back through BitsExp; operands that are not the receiver must be unchanged; in a third of the cases the receiver is read again after a fixed batch of unrelated divisions, products and a square root on private variables (pooled scratch buffers cycled) and must not have changed. Non-trivial = the model result is inexact or left the finite range (rounding, overflow, underflow happened); distinct = distinct case encodings. Bounds: exponent gap of sums <= 600 (quick) / 6000 (thorough) digits, Quo precision <= 2000 / 40000, operands <= 2500 / 20000 digits."
+const ruleC01 = "rapid-generated (op, operands, receiver precision, mode) for add/sub/mul/quo/set/setprec/neg/abs: operands from word-patterned digit generators (0, 10^19-1, 5*10^18, 10^k, 10^k-1 words, uniform filler), result-directed constructions (chosen exact sum split into addends; x=q*y(+r) with q carrying a tie / all-nines / just-above / just-below pattern at the precision), products that are round numbers or miss one by less than a factor (2^a m x 5^a n; ceil or floor of 10^k / y times y), short operands with long terminating quotients (divisors 2^a 5^b, a up to 2600, the receiver holding the whole expansion or a few digits less), a power of ten minus about half a unit of the result's last place (the difference drops into the decade below; tie / just below / just above decided one to several words further down), near-total cancellation, exponents at both ends of the int32 range, zero addends, an addend 4096 .. 140000 digits below the other (a few per run: 2^20 .. 2^27 digits below), dividends of 19500-24000 digits against short divisors (random, or an exact multiple of the divisor followed by zeros and one stray digit anywhere in the tail, the mantissa zero-padded below it), receivers aliased to an operand, about one case in 4000 with operands or precisions of 32768..131072 digits; oracle = math/big exact result rounded once by the reference Round (range rule included), compared on sign, digits, exponent read back through BitsExp; operands that are not the receiver must be unchanged; in a third of the cases the receiver is read again after a fixed batch of unrelated divisions, products and a square root on private variables (pooled scratch buffers cycled) and must not have changed. Non-trivial = the model result is inexact or left the finite range (rounding, overflow, underflow happened); distinct = distinct case encodings. Bounds: exponent gap of sums <= 600 (quick) / 6000 (thorough) digits, Quo precision <= 2000 / 40000, operands <= 2500 / 20000 digits."
 
 var propC01 = &h.Prop[C01Case]{ID: "C01", Rule: ruleC01, Gen: genC01, Check: checkC01, Matchers: map[string]func(C01Case) bool{}}
 
